@@ -110,8 +110,70 @@ fn ztail_case(k: u64) -> Case {
     }
 }
 
+/// Third enumeration: sequences of byte *tokens* — valid characters that look like the
+/// decoder's own output (U+FFFD), valid multi-byte characters, and malformed pieces — so that
+/// "valid U+FFFD next to a malformation", "valid CJK next to a truncated sequence" etc. occur.
+pub const BYTE_TOKENS: [&[u8]; 10] = [
+    b"A", b"\n", b": ", &[0xEF, 0xBF, 0xBD], &[0xE4, 0xB8, 0xAD], &[0xF0, 0x9F, 0x98, 0x80], &[0x80], &[0xC3], &[0xFF], &[0xE4, 0xB8],
+];
+pub fn byte_token_count() -> u64 {
+    (1..=4u32).map(|k| 10u64.pow(k)).sum::<u64>() * 4 * 2
+}
+fn byte_token_case(k: u64) -> Case {
+    let trap = TRAPS[(k % 4) as usize];
+    let k = k / 4;
+    let utf16 = k % 2 == 1;
+    let mut i = k / 2;
+    let mut len = 1usize;
+    loop {
+        let n = 10u64.pow(len as u32);
+        if i < n {
+            break;
+        }
+        i -= n;
+        len += 1;
+    }
+    let mut bytes = vec![b'k'];
+    for _ in 0..len {
+        bytes.extend_from_slice(BYTE_TOKENS[(i % 10) as usize]);
+        i /= 10;
+    }
+    if utf16 {
+        // the same token sequence as UTF-16LE: valid tokens become their UTF-16 form, malformed
+        // pieces become lone surrogates / an odd byte
+        let mut out = vec![0xFF, 0xFE];
+        let mut j = 0;
+        while j < bytes.len() {
+            let b = bytes[j];
+            let (units, adv): (Vec<u16>, usize) = if b < 0x80 {
+                (vec![u16::from(b)], 1)
+            } else if bytes[j..].starts_with(&[0xEF, 0xBF, 0xBD]) {
+                (vec![0xFFFD], 3)
+            } else if bytes[j..].starts_with(&[0xE4, 0xB8, 0xAD]) {
+                (vec![0x4E2D], 3)
+            } else if bytes[j..].starts_with(&[0xF0, 0x9F, 0x98, 0x80]) {
+                (vec![0xD83D, 0xDE00], 4)
+            } else if b == 0x80 {
+                (vec![0xDC00], 1)
+            } else if b == 0xC3 {
+                (vec![0xD800], 1)
+            } else if b == 0xFF {
+                (vec![0xDFFF], 1)
+            } else {
+                (vec![0xD83D], 2)
+            };
+            for u in units {
+                out.extend_from_slice(&u.to_le_bytes());
+            }
+            j += adv;
+        }
+        bytes = out;
+    }
+    Case { prop: "C18".into(), gen: "T-byte-tokens".into(), bytes, trap: trap.into(), fault_free: false, enc: "raw".into(), ..Case::default() }
+}
+
 pub fn exhaustive_count(l: usize) -> u64 {
-    small_count(l) + shapes_count() + ztail_count()
+    small_count(l) + shapes_count() + byte_token_count() + ztail_count()
 }
 
 fn small_bytes(mut i: u64) -> Vec<u8> {
@@ -165,8 +227,11 @@ pub fn generate(run_seed: u64, corpus: &Corpus, sw: &Swarm, i: u64, exhaustive: 
     if i < exhaustive && i >= exhaustive - ztail_count() {
         return ztail_case(i - (exhaustive - ztail_count()));
     }
-    if i < exhaustive && i >= exhaustive - ztail_count() - shapes_count() {
-        let k = i - (exhaustive - ztail_count() - shapes_count());
+    if i < exhaustive && i >= exhaustive - ztail_count() - byte_token_count() {
+        return byte_token_case(i - (exhaustive - ztail_count() - byte_token_count()));
+    }
+    if i < exhaustive && i >= exhaustive - ztail_count() - byte_token_count() - shapes_count() {
+        let k = i - (exhaustive - ztail_count() - byte_token_count() - shapes_count());
         return Case {
             prop: "C18".into(),
             gen: "U-utf8-shapes".into(),
